@@ -594,6 +594,15 @@ func (p *Program) FindUnguarded(fn *ssa.Function, effects []*Effect, g GuardMatc
 				continue
 			}
 			if PathExists(fn, removed, e.Instr, r.Ret) {
+				// the path view found a way round every branch of the guard: ask the abstract executions whether
+				// the guard's condition reaches the effect through data instead (flags, verdicts, single exit)
+				mode := AbsCommit
+				if commitAll {
+					mode = AbsAnyReturn
+				}
+				if guarded, ok := p.AbsGuarded(fn, e.Instr, g, mode); ok && guarded {
+					break
+				}
 				out = append(out, Unguarded{e, r.Ret})
 				break
 			}
@@ -988,7 +997,59 @@ func SameValue(a, b ssa.Value) bool {
 			return v
 		}
 	}
-	return strip(a) == strip(b)
+	a, b = strip(a), strip(b)
+	if a == b {
+		return true
+	}
+	// two reads of the same field of the same local struct, the field never assigned on its own
+	if fa, ok := a.(*ssa.Field); ok {
+		if fb, ok := b.(*ssa.Field); ok {
+			return fa.Field == fb.Field && SameValue(fa.X, fb.X)
+		}
+	}
+	la, oka := a.(*ssa.UnOp)
+	lb, okb := b.(*ssa.UnOp)
+	if oka && okb && la.Op == token.MUL && lb.Op == token.MUL {
+		fa, oka := la.X.(*ssa.FieldAddr)
+		fb, okb := lb.X.(*ssa.FieldAddr)
+		if oka && okb && fa.Field == fb.Field && fa.X == fb.X {
+			if al, ok := fa.X.(*ssa.Alloc); ok && al.Referrers() != nil {
+				for _, r := range *al.Referrers() {
+					switch x := r.(type) {
+					case *ssa.FieldAddr:
+						if x.Field != fa.Field || x.Referrers() == nil {
+							continue
+						}
+						for _, rr := range *x.Referrers() {
+							if ld, isLoad := rr.(*ssa.UnOp); isLoad && ld.Op == token.MUL {
+								continue
+							}
+							if _, dbg := rr.(*ssa.DebugRef); dbg {
+								continue
+							}
+							return false // written, or its address taken
+						}
+					case *ssa.Store:
+						if x.Addr != al {
+							return false
+						}
+						// the whole struct assigned: fine when it happens once (the parameter spill / the initialisation)
+					case *ssa.UnOp, *ssa.DebugRef:
+					default:
+						return false // the struct's address escapes
+					}
+				}
+				n := 0
+				for _, r := range *al.Referrers() {
+					if st, ok := r.(*ssa.Store); ok && st.Addr == al {
+						n++
+					}
+				}
+				return n <= 1
+			}
+		}
+	}
+	return false
 }
 
 // BypassExists: is there a path from instruction w to a commit return that does not execute instruction d?
@@ -1021,10 +1082,11 @@ func (p *Program) BypassExistsAvoiding(fn *ssa.Function, w, d ssa.Instruction, c
 			continue
 		}
 		rb := r.Ret.Block()
-		if rb == wb && instrIndex(r.Ret) > instrIndex(w) {
-			return r.Ret
-		}
-		if rb != wb && reach[rb] {
+		if (rb == wb && instrIndex(r.Ret) > instrIndex(w)) || (rb != wb && reach[rb]) {
+			// the path view sees a way round d: is there an execution that takes it?
+			if exists, ok := p.AbsBypass(fn, w, d, commitAll, avoid); ok && !exists {
+				return nil
+			}
 			return r.Ret
 		}
 	}
